@@ -128,6 +128,10 @@ pub fn public_key_der_from_cose_key(key: &CoseKey) -> Result<Bytes, Ctap2Error> 
     let (Some(x), Some(y)) = (x, y) else {
         return Err(Ctap2Error::CborUnexpectedType);
     };
+    // P-256 coordinates are 32 bytes each, anything else is not a valid key
+    if x.len() != 32 || y.len() != 32 {
+        return Err(Ctap2Error::InvalidCredential);
+    }
 
     let point = EncodedPoint::from_affine_coordinates(
         GenericArray::from_slice(x.as_slice()),
